@@ -5,3 +5,276 @@ from checks.kani_specs import C07_SPECS
 
 def run(chk):
     kani_runner.obligations(chk, C07_SPECS, chk.tier)
+
+
+# ============================================================================ E2: find / try_find / augmented_get / Variable
+import itertools
+import z3
+from mirsym.exec import Executor, State, Unsupported
+from mirsym.values import *
+from mirsym.models.maps import MapV
+from checks.common import *
+from checks.renderables import expr_stub
+
+
+def to_value(x):
+    """python data -> liquid Value model"""
+    if x is None: return VALUE_NIL
+    if isinstance(x, bool): return value_scalar(scalar_bool(x))
+    if isinstance(x, int): return value_scalar(scalar_int(x))
+    if isinstance(x, str): return value_scalar(scalar_str(x))
+    if isinstance(x, list): return Adt('Value', 'Array', [VecV([to_value(e) for e in x])])
+    if isinstance(x, dict): return Adt('Value', 'Object', [MapV(tuple(x.keys()), tuple(to_value(v) for v in x.values()), 'Object')])
+    raise ValueError(x)
+
+
+def py_lookup(data, path):
+    """reference semantics of a variable path; returns ('ok', value) or ('missing', longest resolvable prefix length)"""
+    cur = data
+    for n, p in enumerate(path):
+        nxt = MISSING
+        if isinstance(cur, list):
+            if isinstance(p, int) and not isinstance(p, bool):
+                i = p if p >= 0 else len(cur) + p
+                if 0 <= i < len(cur): nxt = cur[i]
+            elif isinstance(p, str) and (p.lstrip('+-').isdigit() and p == str(int(p))):
+                i = int(p); i = i if i >= 0 else len(cur) + i
+                if 0 <= i < len(cur): nxt = cur[i]
+            elif p == 'first' and cur: nxt = cur[0]
+            elif p == 'last' and cur: nxt = cur[-1]
+            elif p == 'size': nxt = len(cur)
+        elif isinstance(cur, dict):
+            k = p if isinstance(p, str) else str(p)
+            if k in cur: nxt = cur[k]
+            elif k == 'size': nxt = len(cur)
+        elif cur is not None and not isinstance(cur, (list, dict)):
+            if p == 'size':
+                s = cur if isinstance(cur, str) else ('true' if cur is True else 'false' if cur is False else str(cur))
+                nxt = len(s.encode('utf-8'))
+        if nxt is MISSING: return ('missing', n)
+        cur = nxt
+    return ('ok', cur)
+
+
+MISSING = object()
+DATA = {'a': [10, 11, {'size': 99, 'k': 'v', 'first': 'F'}], 's': 'héy', 'e': [], 'o': {'x': {'y': [1, 2]}}, 'size': 7, 'n': None, 't': True}
+STEPS = [0, 1, 2, 3, -1, -3, -4, 'a', 's', 'e', 'o', 'x', 'y', 'k', 'size', 'first', 'last', 'zz', 'n', 't', '1', '-1']
+
+
+def scalar_of(p):
+    return scalar_int(p) if isinstance(p, int) else scalar_str(p)
+
+
+def concrete_value(st, v):
+    """Value / ValueCow model -> python data"""
+    v = st.deref_all(v)
+    if isinstance(v, Adt) and v.ty == 'ValueCow': return concrete_value(st, v.items[0])
+    if isinstance(v, Adt) and v.ty == 'ScalarCow':
+        p = v.items[0].items[0]
+        return p.concrete()
+    if isinstance(v, Adt) and v.ty == 'Value':
+        if v.variant == 'Nil': return None
+        if v.variant == 'Scalar':
+            inner = v.items[0].items[0]; p = inner.items[0]
+            if isinstance(p, StrV): return p.concrete()
+            return p.concrete()
+        if v.variant == 'Array': return [concrete_value(st, e) for e in v.items[0].items]
+        if v.variant == 'Object': return {k: concrete_value(st, e) for k, e in zip(v.items[0].keys, v.items[0].items)}
+    if isinstance(v, MapV): return {k: concrete_value(st, e) for k, e in zip(v.keys, v.items)}
+    if isinstance(v, VecV): return [concrete_value(st, e) for e in v.items]
+    if isinstance(v, (Int, Bool)): return v.concrete()
+    if isinstance(v, StrV): return v.concrete()
+    return repr(v)
+
+
+def path_template(path):
+    t = '{{ d'
+    for p in path:
+        t += f'[{p}]' if isinstance(p, int) else f'.{p}' if (p.isidentifier()) else f"['{p}']"
+    return t + ' }}'
+
+
+def render_py(v):
+    if v is None: return ''
+    if v is True: return 'true'
+    if v is False: return 'false'
+    if isinstance(v, list): return ''.join(render_py(e) for e in v)
+    if isinstance(v, dict): return None    # object rendering order/format: not compared
+    return str(v)
+
+
+def ob_find(chk, P, maxlen):
+    with chk.obligation('find/try_find/paths', 'stepwise lookup over nested data: object members by key, array elements by zero-based index (negatives from the end), first/last/size by meaning '
+                        "(an object's own key wins over size); try_find is None exactly when a step does not exist, find is then Err (never a panic) and otherwise returns the same value",
+                        {'data': 'one nested tree (arrays in objects in arrays, keys colliding with size/first)', 'paths': f'all paths of length 1..{maxlen} over {len(STEPS)} steps'}) as ob:
+        ex = Executor(P, models_with([])); ex.seed = chk.seed; ex.max_steps = 20000
+        f_try = P.find(r'^fn (?:model::)?find::try_find\(', 'core'); f_find = P.find(r'^fn (?:model::)?find::find\(', 'core')
+        ob.assumptions += ['error-message construction neither panics nor has effects']
+        n = 0
+        for ln in range(1, maxlen + 1):
+            for path in itertools.product(STEPS, repeat=ln):
+                exp = py_lookup(DATA, path)
+                if ln == 3 and py_lookup(DATA, path[:1])[0] == 'missing': continue   # prune: everything below a missing root behaves alike
+                res = {}
+                first_ok = py_lookup(DATA, path[:1])[0] == 'ok'
+                for which, fn in (('try_find', f_try), ('find', f_find)):
+                    if which == 'find' and not first_ok:
+                        # precondition of find(): every caller (the stack frames) checks contains_key(first step) before calling it
+                        res[which] = ('missing',); continue
+                    st = State()
+                    root = st.ref(to_value(DATA))
+                    pref = st.ref(VecV([scalar_of(p) for p in path], 'slice'))
+                    outs = list(ex.run(fn, [root, pref], st))
+                    ob.paths += len(outs); ob.reached()
+                    if len(outs) != 1: res[which] = ('multi', len(outs)); continue
+                    s2, kind, val = outs[0]
+                    if kind == 'panic': res[which] = ('panic', str(val)[:80])
+                    elif val.variant in ('Some', 'Ok'): res[which] = ('ok', concrete_value(s2, val.items[0]))
+                    else: res[which] = ('missing',)
+                n += 1
+                bad = None
+                want = ('ok', exp[1]) if exp[0] == 'ok' else ('missing',)
+                if res['try_find'] != want: bad = f'try_find -> {res["try_find"]}, expected {want}'
+                elif res['find'] != want: bad = f'find -> {res["find"]}, expected {want}'
+                if bad:
+                    tpl = path_template(('a',) + path[1:]) if False else path_template(path)
+                    expect = render_py(exp[1]) if exp[0] == 'ok' else None
+                    sc = {'kind': 'template', 'template': '[' + tpl + ']', 'globals': {'d': DATA}}
+                    def conf(r, expect=expect, missing=(exp[0] == 'missing')):
+                        if missing: return r.get('outcome') != 'err'
+                        if expect is None: return False
+                        return r.get('outcome') != 'ok' or r.get('output') != '[' + expect + ']'
+                    role = 'find/panic' if 'panic' in repr(res) else ('find/wrong-value' if exp[0] == 'ok' else 'find/missing-step-not-reported')
+                    ob.violation(role, f'path {list(path)}: {bad}', {'path': repr(path), 'results': repr(res)}, sc, conf)
+        ob.sample({'paths_checked': n, 'example': {'path': ['a', 2, 'size'], 'expected': 99}})
+        ob.absorb(ex)
+
+
+def ob_array_index(chk, P, maxlen):
+    with chk.obligation('augmented_get/array-index', 'an integer step into an array of Values selects element i for 0 <= i < len, element len+i for -len <= i < 0, nothing otherwise -- for EVERY i64 index',
+                        {'array length': f'0..{maxlen}', 'index': 'every i64'}) as ob:
+        ex = Executor(P, models_with([])); ex.seed = chk.seed
+        fn = P.find(r'^fn (?:\w+::)*augmented_get\(', 'core')
+        for n in range(maxlen + 1):
+            st = State()
+            idx = z3.BitVec('idx', 64)
+            arr = st.ref(to_value([100 + k for k in range(n)]))
+            for s2, kind, val in ex.run(fn, [arr, st.ref(scalar_int(Int(idx, 'i64')))], st):
+                ob.paths += 1; ob.reached()
+                if kind == 'panic':
+                    m = ob.decide(ex, s2.conds, z3.BoolVal(True)); iv = m.eval(idx, model_completion=True).as_signed_long()
+                    sc = {'kind': 'template', 'template': '[{{ d[i] }}]', 'globals': {'d': [100 + k for k in range(n)], 'i': iv}}
+                    ob.violation('augmented_get/array-index/panic', f'index {iv} into an array of {n} panics: {val}', {'len': n, 'index': iv}, sc, lambda r: r.get('outcome') not in ('ok', 'err')); continue
+                got = concrete_value(s2, val.items[0]) if val.variant == 'Some' else None
+                if got is None:
+                    post = z3.Or(idx >= n, idx < -n)
+                else:
+                    k = got - 100
+                    post = z3.Or(idx == k, idx == k - n)
+                m = ob.decide(ex, s2.conds, z3.Not(post))
+                if m is not None:
+                    iv = m.eval(idx, model_completion=True).as_signed_long()
+                    i2 = iv if iv >= 0 else n + iv
+                    expect = str(100 + i2) if 0 <= i2 < n else None
+                    sc = {'kind': 'template', 'template': '[{{ d[i] }}]', 'globals': {'d': [100 + k for k in range(n)], 'i': iv}}
+                    ob.violation('augmented_get/array-index/wrong-element', f'index {iv} into an array of {n} yields {got}', {'len': n, 'index': iv, 'got': got}, sc,
+                                 lambda r, e=expect: (r.get('outcome') != 'err') if e is None else (r.get('output') != f'[{e}]'))
+            ob.sample({'len': n})
+        ob.absorb(ex)
+
+
+def ob_overlays(chk, P):
+    with chk.obligation('augmented_get/overlays', "one lookup step on every kind of value: arrays answer integer steps, first, last, size; objects answer their own keys first and size only when they have no such key; "
+                        'scalars answer size (their rendered length); nil, and every other step, is missing',
+                        {'values': 'arrays (empty / 3 elements), objects (with and without own size/first keys), strings (ASCII / non-ASCII), integer, bool, nil', 'steps': f'{len(STEPS)} steps'}) as ob:
+        ex = Executor(P, models_with([])); ex.seed = chk.seed
+        fn = P.find(r'^fn (?:\w+::)*augmented_get\(', 'core')
+        values = [[], [10, 11, 12], {'size': 99, 'k': 'v', 'first': 'F'}, {'k': 1, 'j': 2}, {}, 'abc', 'héy', '', 5, True, None]
+        for v in values:
+            for step in STEPS:
+                st = State()
+                outs = list(ex.run(fn, [st.ref(to_value(v)), st.ref(scalar_of(step))], st))
+                ob.paths += len(outs); ob.reached()
+                exp = py_lookup(v, (step,))
+                want = ('ok', exp[1]) if exp[0] == 'ok' else ('missing',)
+                got = ('multi',)
+                if len(outs) == 1:
+                    s2, kind, val = outs[0]
+                    got = ('panic', str(val)[:60]) if kind == 'panic' else (('ok', concrete_value(s2, val.items[0])) if val.variant == 'Some' else ('missing',))
+                if got != want:
+                    tpl = '[' + path_template((step,)) + ']'
+                    expect = render_py(exp[1]) if exp[0] == 'ok' else None
+                    sc = {'kind': 'template', 'template': tpl, 'globals': {'d': v}}
+                    def conf(r, expect=expect, missing=(exp[0] == 'missing')):
+                        if missing: return r.get('outcome') != 'err'
+                        return expect is not None and (r.get('outcome') != 'ok' or r.get('output') != '[' + expect + ']')
+                    kind_name = type(v).__name__
+                    ob.violation(f'augmented_get/{kind_name}/{step if isinstance(step, str) else "int"}', f'step {step!r} on {v!r}: {got}, expected {want}', {'value': repr(v), 'step': repr(step)}, sc, conf)
+            ob.sample({'value': repr(v)})
+        ob.absorb(ex)
+
+
+def ob_variable(chk, P):
+    with chk.obligation('Variable::evaluate/try_evaluate', 'a variable denotes the path [head, index values...]: every index expression is evaluated in order and must be a scalar; '
+                        'a failing or non-scalar index is an error (None for try_evaluate), never a panic; both forms build the same path',
+                        {'indexes': '0..2 expressions, each: scalar / array (non-scalar) / failing'}) as ob:
+        ex = Executor(P, models_with([])); ex.seed = chk.seed
+        f_ev = P.find_method('Variable', 'evaluate', None, 'core'); f_try = P.find_method('Variable', 'try_evaluate', None, 'core')
+        kinds = ('scalar', 'array', 'fail')
+        for n in range(3):
+            for ks in itertools.product(kinds, repeat=n):
+                res = {}
+                for which, fn in (('evaluate', f_ev), ('try_evaluate', f_try)):
+                    st = State()
+                    idx = []
+                    for i, k in enumerate(ks):
+                        if k == 'scalar': idx.append(expr_stub(value_scalar(scalar_int(50 + i)), f'ix{i}'))
+                        elif k == 'array': idx.append(expr_stub(to_value([1]), f'ix{i}'))
+                        else:
+                            def h(ctx, me, args, s, i=i):
+                                m = method_of(ctx.callee); log_call(s, 'expr', (f'ix{i}', m))
+                                if m == 'evaluate': return ret(s, Err(Adt('LiquidError', None, [Opaque(('msg', 'ix'))])))
+                                if m == 'try_evaluate': return ret(s, NONE)
+                                return None
+                            idx.append(Abs(f'expr:ix{i}', h))
+                    self_ = st.ref(Adt('Variable', None, [scalar_str('head'), VecV(idx)], ['variable', 'indexes']))
+                    outs = list(ex.run(fn, [self_, st.ref(Opaque(('RT',)))], st))
+                    ob.paths += len(outs); ob.reached()
+                    if len(outs) != 1: res[which] = ('multi',); continue
+                    s2, kind, val = outs[0]
+                    if kind == 'panic': res[which] = ('panic', str(val)[:60])
+                    elif val.variant in ('Ok', 'Some'):
+                        p = s2.deref_all(val.items[0]); items = p.items[0].items
+                        res[which] = ('path', tuple(concrete_value(s2, value_scalar(x)) for x in items))
+                    else: res[which] = ('none',)
+                ok_all = all(k == 'scalar' for k in ks)
+                want = ('path', ('head',) + tuple(50 + i for i in range(n))) if ok_all else ('none',)
+                if res['evaluate'] != want or res['try_evaluate'] != want:
+                    if ok_all:
+                        sc = {'kind': 'template', 'template': '[{{ d[i][j] }}]', 'globals': {'d': {'1': {'2': 'ok'}}, 'i': 1, 'j': 2}}
+                        conf = lambda r: r.get('output') != '[ok]'
+                    else:
+                        # a non-scalar / failing index must make the output tag fail
+                        sc = {'kind': 'template', 'template': '[{{ d[arr] }}][{{ d.k[arr].j }}]', 'globals': {'d': {'k': {'j': 1}}, 'arr': [1]}}
+                        conf = lambda r: r.get('outcome') != 'err'
+                    ob.violation('Variable::evaluate/' + ('scalar-indexes' if ok_all else 'non-scalar-index'), f'indexes {ks}: evaluate -> {res["evaluate"]}, try_evaluate -> {res["try_evaluate"]}, expected {want}', {'indexes': ks}, sc, conf)
+            ob.sample({'indexes': n})
+        ob.absorb(ex)
+
+
+_kani_run = run
+
+
+def run(chk):
+    _kani_run(chk)
+    P = chk.program(('core',))
+    ob_array_index(chk, P, 4 if chk.tier == 'quick' else 6)
+    ob_overlays(chk, P)
+    ob_find(chk, P, 2 if chk.tier == 'quick' else 3)
+    ob_variable(chk, P)
+    # translator validation: the reference lookup itself against the native build on a sample of paths
+    for path in [('a', 0), ('a', -1, 'size'), ('a', 2, 'k'), ('s', 'size'), ('e', 'size'), ('o', 'x', 'y'), ('size',), ('a', 'last', 'first')]:
+        exp = py_lookup(DATA, path)
+        r = render_py(exp[1]) if exp[0] == 'ok' else None
+        if r is None: continue
+        chk.validate(f'path {path}', '[' + r + ']', {'kind': 'template', 'template': '[' + path_template(path) + ']', 'globals': {'d': DATA}}, lambda res: res.get('output'))
